@@ -120,7 +120,8 @@ class JSONFormatter(Formatter):
         if step.text:
             text = step.text
             if self.split_text_into_lines and "\n" in text:
-                text = text.splitlines()
+                # -- KEEP: A trailing empty line (reading it back joins with newlines).
+                text = text.split("\n")
             s["text"] = text
         if step.table:
             s["table"] = self.make_table(step.table)
